@@ -16,9 +16,10 @@ Sap == Txt(<<"a", ".">>)         \* a letter and a punctuation character
 Fa  == Bool(0)
 Tr  == Bool(1)
 
-\* every lookup value of the pool: blank, numbers below / inside / above the
-\* cell values, text with case twins, patterns with ? and *, logicals, error
-LookAll == << Blank, Num(-1), Num(0), Num(1), Num(2), Num(3),
+\* every lookup value of the pool: blank, numbers below / between / above the
+\* cell values (-2, 0, 1, 2), text with case twins, patterns with ? and *,
+\* logicals, an error
+LookAll == << Blank, Num(-3), Num(-1), Num(0), Num(1), Num(2), Num(3),
               S0, Sa, SA, Sb, Sab, Sba, Sap,
               Txt(<<"?">>), Txt(<<"a", "?">>), Txt(<<"a", "*">>),
               Txt(<<"*", "b">>), Txt(<<"*">>), Txt(<<"?", ".">>),
@@ -28,13 +29,13 @@ LookAll == << Blank, Num(-1), Num(0), Num(1), Num(2), Num(3),
 LookTbl == << Blank, Num(0), Num(1), Num(2), Num(3), Sa, SA, Sb, Sba,
               Txt(<<"a", "*">>), Txt(<<"?">>), Fa, Tr, Err("#N/A") >>
 
-Wide   == {Num(0), Num(1), Num(2), S0, Sa, SA, Sb, Sab, Sap, Fa, Tr,
+\* pools of cell values
+Wide   == {Num(-2), Num(0), Num(1), S0, Sa, SA, Sb, Sab, Sap, Fa, Tr,
            Err("#DIV/0!")}
-Medium == {Num(1), Num(2), Sa, SA, Sb, Sab, Tr}
+Medium == {Num(-2), Num(1), Sa, SA, Sb, Sab, Tr}
 Neutr  == {Num(0), Num(1), S0, Sa, Fa, Tr, Err("#N/A")}
-Narrow == {Num(1), Num(2), Sa, Tr}
+Sorted == {Num(-2), Num(0), Num(1), Sa, SA, Sb, Fa, Tr, Err("#N/A")}
 TblKey == {Num(1), Num(2), Sa, Sb, Tr}
-Sorted == {Num(0), Num(1), Num(2), Sa, SA, Sb, Fa, Tr, Err("#N/A")}
 
 Mode(pool, look, maxlen, maxz, srt, w) ==
   [pool |-> pool, look |-> look, maxlen |-> maxlen, maxz |-> maxz,
@@ -55,11 +56,11 @@ QuickModes == << Mode(Wide,   LookAll, 3, 1, FALSE, 0),
 \* sorted vector up to length 6 (9 values) and 8 (6 values); tables up to
 \* 6 x 4
 BigModes == << Mode(Wide,   LookAll, 4, 1, FALSE, 0),
-               Mode({Num(1), Num(2), Sa, SA, Tr}, LookAll, 6, 1, FALSE, 0),
+               Mode({Num(-2), Num(1), Sa, SA, Tr}, LookAll, 6, 1, FALSE, 0),
                Mode(Neutr \ {Err("#N/A")}, LookAll, 5, 1, FALSE, 0),
-               Mode({Num(1), Sa, Tr}, LookAll, 8, 1, FALSE, 0),
+               Mode({Num(1), Sa, Tr}, LookAll, 8, 2, FALSE, 0),
                Mode(Sorted, LookAll, 6, 1, TRUE,  0),
-               Mode({Num(0), Num(1), Sa, SA, Fa, Tr}, LookAll, 8, 1, TRUE, 0),
+               Mode({Num(-2), Num(1), Sa, SA, Fa, Tr}, LookAll, 8, 1, TRUE, 0),
                Mode(TblKey \ {Sb}, LookTbl, 6, 1, FALSE, 2),
                Mode(TblKey \ {Sb}, LookTbl, 6, 1, FALSE, 3),
                Mode(TblKey \ {Sb}, LookTbl, 6, 1, FALSE, 4) >>
